@@ -43,6 +43,87 @@ def uses_strings(terms):
     return False
 
 
+import re as _re
+
+_COMMON = {'typeof', 'alloc0'}
+
+
+def _symbols(t, cache):
+    i = t.get_id()
+    if i in cache:
+        return cache[i]
+    out = set()
+    seen = set()
+    todo = [t]
+    while todo:
+        x = todo.pop()
+        xi = x.get_id()
+        if xi in seen:
+            continue
+        seen.add(xi)
+        if z3.is_quantifier(x):
+            todo.append(x.body())
+            continue
+        if z3.is_app(x):
+            d = x.decl()
+            if d.kind() == z3.Z3_OP_UNINTERPRETED:
+                nm = _re.sub(r'^H\d+_', 'H_', d.name())
+                nm = _re.sub(r'!\d+$', '', nm) if nm.startswith(('hv', 'alloc', 'new_', 'ret_')) else nm
+                if nm not in _COMMON:
+                    out.add(nm)
+            todo.extend(x.children())
+    cache[i] = out
+    return out
+
+
+def _has_q(e):
+    seen = set()
+    todo = [e]
+    while todo:
+        x = todo.pop()
+        if z3.is_quantifier(x):
+            return True
+        if x.get_id() in seen:
+            continue
+        seen.add(x.get_id())
+        todo.extend(x.children())
+    return False
+
+
+def relevant_subsets(pc, goal, levels=(1, 2)):
+    """Subsets of the hypotheses: ALL quantifier-free ones plus the quantified ones within a given distance
+    of the goal in the symbol co-occurrence graph (heap arrays identified up to their havoc epoch; symbols that
+    occur in most quantified hypotheses do not count as links).  Proving from a SUBSET of the hypotheses is
+    sound; it only lets the solver ignore invariants that were re-assumed at every yield point but have nothing
+    to do with the goal."""
+    cache = {}
+    qidx = [i for i, p in enumerate(pc) if _has_q(p)]
+    if len(qidx) < 8:
+        return []
+    qf = [i for i in range(len(pc)) if i not in set(qidx)]
+    syms = {i: _symbols(pc[i], cache) for i in qidx}
+    freq = {}
+    for i in qidx:
+        for x in syms[i]:
+            freq[x] = freq.get(x, 0) + 1
+    hubs = set(x for x, n in freq.items() if n > 0.3 * len(qidx))
+    hubs |= set(x for x in freq if x.startswith(('self!', 'hv', 'alloc', 'new_', 'ret_', 'H_$llen', 'H_$larr', 'H_$set',
+                                                 'H_$dlen', 'H_$dkeys', 'H_$dmap', 'H_$dhas')))
+    cur = set(_symbols(goal, cache)) - hubs
+    chosen = []
+    out = []
+    for lvl in range(max(levels)):
+        new = [i for i in qidx if i not in chosen and (syms[i] - hubs) & cur]
+        if not new:
+            break
+        chosen.extend(new)
+        for i in new:
+            cur |= (syms[i] - hubs)
+        if (lvl + 1) in levels and len(chosen) < len(qidx):
+            out.append(sorted(qf + chosen))
+    return out
+
+
 def discharge(ob, tier='quick'):
     """Sets ob.status in {'proved','refuted','unknown','trivial'}, ob.backend, ob.time, ob.model."""
     if ob.status == 'trivial':
@@ -53,6 +134,16 @@ def discharge(ob, tier='quick'):
     neg = z3.Not(ob.goal)
     attempts = [('z3', True, Z3_TIMEOUT_MS * scale), ('z3-ematch', False, Z3_TIMEOUT_MS * scale)]
     last_model = None
+    if len(ob.pc) > 40:
+        for sub in relevant_subsets(ob.pc, ob.goal):
+            s = _solver(Z3_TIMEOUT_MS * scale, True)
+            for i in sub:
+                s.add(ob.pc[i])
+            s.add(neg)
+            if s.check() == z3.unsat:
+                ob.status, ob.backend = 'proved', 'z3 (relevant hypotheses: %d of %d)' % (len(sub), len(ob.pc))
+                ob.time = time.time() - t0
+                return ob
     for name, mbqi, to in attempts:
         s = _solver(to, mbqi)
         for p in ob.pc:
